@@ -779,7 +779,7 @@ class DateTime(datetime.datetime, Date):
         if unit not in self._MODIFIERS_VALID_UNITS:
             raise ValueError(f'Invalid unit "{unit}" for start_of()')
 
-        return cast("Self", getattr(self, f"_start_of_{unit}")())
+        return self._boundary_of(f"_start_of_{unit}", unit, first=True)
 
     def end_of(self, unit: str) -> Self:
         """
@@ -799,7 +799,53 @@ class DateTime(datetime.datetime, Date):
         if unit not in self._MODIFIERS_VALID_UNITS:
             raise ValueError(f'Invalid unit "{unit}" for end_of()')
 
-        return cast("Self", getattr(self, f"_end_of_{unit}")())
+        return self._boundary_of(f"_end_of_{unit}", unit, first=False)
+
+    def _boundary_of(self, method: str, unit: str, first: bool) -> Self:
+        """
+        Computes a unit boundary for both readings of the wall clock (fold=0/1)
+        so that a skipped or repeated boundary is resolved by what the
+        boundary is, not by the fold the instance happens to carry.
+        """
+        if self.tzinfo is None:
+            return cast("Self", getattr(self, method)())
+
+        pre, post = (
+            cast(
+                "Self",
+                getattr(
+                    self.__class__(
+                        self.year,
+                        self.month,
+                        self.day,
+                        self.hour,
+                        self.minute,
+                        self.second,
+                        self.microsecond,
+                        tzinfo=self.tzinfo,
+                        fold=fold,
+                    ),
+                    method,
+                )(),
+            )
+            for fold in (0, 1)
+        )
+
+        if pre.replace(tzinfo=None) != post.replace(tzinfo=None):
+            # The boundary is skipped: first instant after the gap
+            # or last instant before it.
+            return post if first else pre
+
+        if unit in ("second", "minute", "hour"):
+            # Stay in the occurrence of the repeated time we are in.
+            if pre.utcoffset() == post.utcoffset():
+                return pre
+
+            return post if post.utcoffset() == self.utcoffset() else pre
+
+        # The boundary is repeated (or exists once):
+        # the unit starts with its first occurrence and ends with its last.
+        return pre if first else post
 
     def _start_of_second(self) -> Self:
         """
